@@ -38,4 +38,58 @@ theorem acceptsAll_cons (e : Env) (c : Clause) (cs : List Clause) :
 theorem cl_rejects (e : Env) (c : Cond) : (cl c).rejects e = false ↔ evalCond e [] c = some false := by
   simp [cl, Clause.rejects, rejBinders, rejAt, guardsHold]
 
+/-! ### inverting clause evaluation -/
+
+theorem evalCond_lt_false {e : Env} {ix : List Nat} {a b : Term} (h : evalCond e ix (.lt a b) = some false) :
+    ∃ x y, evalTerm e ix a = some x ∧ evalTerm e ix b = some y ∧ ¬ x < y := by
+  simp only [evalCond, bind, Option.bind] at h
+  cases ha : evalTerm e ix a with
+  | none => simp [ha] at h
+  | some x =>
+    cases hb : evalTerm e ix b with
+    | none => simp [ha, hb] at h
+    | some y => simp [ha, hb] at h; exact ⟨x, y, rfl, rfl, by omega⟩
+
+theorem evalCond_le_false {e : Env} {ix : List Nat} {a b : Term} (h : evalCond e ix (.le a b) = some false) :
+    ∃ x y, evalTerm e ix a = some x ∧ evalTerm e ix b = some y ∧ ¬ x ≤ y := by
+  simp only [evalCond, bind, Option.bind] at h
+  cases ha : evalTerm e ix a with
+  | none => simp [ha] at h
+  | some x =>
+    cases hb : evalTerm e ix b with
+    | none => simp [ha, hb] at h
+    | some y => simp [ha, hb] at h; exact ⟨x, y, rfl, rfl, by omega⟩
+
+theorem evalCond_eq_false {e : Env} {ix : List Nat} {a b : Term} (h : evalCond e ix (.eq a b) = some false) :
+    ∃ x y, evalTerm e ix a = some x ∧ evalTerm e ix b = some y ∧ x ≠ y := by
+  simp only [evalCond, bind, Option.bind] at h
+  cases ha : evalTerm e ix a with
+  | none => simp [ha] at h
+  | some x =>
+    cases hb : evalTerm e ix b with
+    | none => simp [ha, hb] at h
+    | some y => simp [ha, hb] at h; exact ⟨x, y, rfl, rfl, h⟩
+
+theorem evalCond_or_false {e : Env} {ix : List Nat} {a b : Cond} (h : evalCond e ix (.or a b) = some false) :
+    evalCond e ix a = some false ∧ evalCond e ix b = some false := by
+  simp only [evalCond] at h
+  cases ha : evalCond e ix a with
+  | none => simp [ha] at h
+  | some v =>
+    cases v with
+    | true => simp [ha] at h
+    | false => simp [ha] at h; exact ⟨rfl, h⟩
+
+theorem evalCond_not_false {e : Env} {ix : List Nat} {a : Cond} (h : evalCond e ix (.not a) = some false) :
+    evalCond e ix a = some true := by
+  simp only [evalCond] at h
+  cases ha : evalCond e ix a with
+  | none => simp [ha] at h
+  | some v => cases v <;> simp [ha] at h ⊢
+
+theorem evalTerm_mulInt {e : Env} {ix : List Nat} {a b : Term} {x y : Int}
+    (ha : evalTerm e ix a = some x) (hb : evalTerm e ix b = some y) :
+    evalTerm e ix (.mulInt a b) = if decFits (x * y) then some (x * y) else none := by
+  simp [evalTerm, ha, hb]
+
 end Sif.Proofs.C10
